@@ -10,3 +10,13 @@ func pptOptionsToDetails(options wamp.Dict, details wamp.Dict) {
 		}
 	}
 }
+
+// endSession asks the session's own handler goroutine to end the session.
+//
+// Only the handler may close the session's peer: it does so after removing
+// the session from the realm, dealer and broker. Closing the peer anywhere
+// else leads to a second close by the handler, and to sends on a closed
+// channel by the broker and dealer in between.
+func endSession(sess *wamp.Session, reason wamp.URI) {
+	sess.EndRecv(&wamp.Goodbye{Reason: reason, Details: wamp.Dict{}})
+}
